@@ -124,6 +124,9 @@ pub struct Report {
     pub sched_problem: Option<String>,
     /// does "everything before the last slash" still resolve after the call?
     pub parent_resolves_after: bool,
+    /// errno of the kernel's resolution of the parent part, if it failed
+    #[serde(default)]
+    pub parent_kernel_errno: Option<i32>,
 }
 
 pub fn child(case: &Case) -> Report {
@@ -136,6 +139,7 @@ pub fn child(case: &Case) -> Report {
     let mut entry = None;
     let mut entry_kind = "none".to_string();
     let mut final_is_dots = false;
+    let mut parent_kernel_errno = None;
     if let Some(n) = &name {
         final_is_dots = n.0 == b"." || n.0 == b"..";
         if !final_is_dots && !case.path.has_nul() {
@@ -143,7 +147,11 @@ pub fn child(case: &Case) -> Report {
             if case.no_symlinks {
                 resolve |= RESOLVE_NO_SYMLINKS;
             }
-            if let Ok(pfd) = openat2_raw(rootfd, &rest.0, libc::O_PATH as u64, 0, resolve) {
+            let pres = openat2_raw(rootfd, &rest.0, libc::O_PATH as u64, 0, resolve);
+            if let Err(e) = &pres {
+                parent_kernel_errno = Some(*e);
+            }
+            if let Ok(pfd) = pres {
                 if let (Ok(pst), Ok(est)) = (fstat(pfd), fstatat(pfd, &n.0, true)) {
                     if let Some(pl) = before.label_of(pst.id) {
                         let l = pl.join(&n.0);
@@ -228,7 +236,7 @@ pub fn child(case: &Case) -> Report {
     };
     close(rootfd);
     sb.destroy();
-    Report { parent_resolves_after, outs, entry, entry_kind, final_is_dots, removed, added, modified, still_there, subtree_size, subtree_links, preemptions: sched.preemptions, blocked_steps: sched.blocked_steps, sched_problem: sched.problem }
+    Report { parent_resolves_after, parent_kernel_errno, outs, entry, entry_kind, final_is_dots, removed, added, modified, still_there, subtree_size, subtree_links, preemptions: sched.preemptions, blocked_steps: sched.blocked_steps, sched_problem: sched.problem }
 }
 
 fn backend(k: Kcfg) -> &'static str {
@@ -291,6 +299,18 @@ pub fn judge(case: &Case, rep: &Report, stats: &mut Stats) -> Result<(), Fail> {
     }
     if !rep.added.is_empty() || !rep.modified.is_empty() {
         return Err(mk("added-or-modified".into(), "remove_all added or modified entries".into()));
+    }
+    // more than 40 link traversals: the kernel (budget 40) says ELOOP, the emulated
+    // resolver (budget 128) keeps going; which entry such a path names is outside the
+    // domain the resolvers are compared on. Only the frame condition is kept:
+    // nothing outside the root disappears.
+    if rep.entry.is_none() && rep.parent_kernel_errno == Some(libc::ELOOP) && !case.kcfg.has_openat2() && !case.no_symlinks && !rep.removed.is_empty() {
+        let root = B::new("root");
+        if let Some(p) = rep.removed.iter().find(|p| !under(p, &root)) {
+            return Err(mk("removed-outside-root".into(), format!("an entry outside the root disappeared: {}", p)));
+        }
+        stats.count("discarded_over_40_traversals", 1);
+        return Ok(());
     }
     // everything removed must belong to the named subtree
     let spelling = if rep.final_is_dots { "dots" } else if rep.entry.is_none() { "no-entry" } else { "entry" };
